@@ -100,6 +100,8 @@ let parse_op = function
   | ["MuxRemoveSignal"; u; k] -> MuxRemove (hd_ u, hd_ k)
   | ["MuxClearGroup"; u; g] -> MuxClearGroup (hd_ u, zz g)
   | ["MuxClearAll"; u] -> MuxClearAll (hd_ u)
+  | ["CloneEnum"; e] -> EnumClone (hd_ e)
+  | ["CloneEval"; v] -> EvalClone (hd_ v)
   | l -> L3 (parse_op3 l)
 
 let cause_s = function
